@@ -72,12 +72,48 @@ def one_case(obs_list, st, ns, nc, burn, steps, init=None, overwrite=False, syst
     return fails
 
 
+def large_counts():
+    """More than 2**24 samples with a remainder of one: the count is never less than requested (stand-in state whose
+    draws cost nothing; the observable is a constant)."""
+    from qucumber.observables import ObservableBase, System
+
+    class Const(ObservableBase):
+        def apply(self, nn_state, samples):
+            return torch.ones(samples.shape[0], dtype=torch.double)
+
+    class Draws:
+        num_visible = 1
+        device = "cpu"
+
+        def __init__(self):
+            self.n = 0
+
+        def sample(self, k, num_samples=None, initial_state=None, overwrite=False):
+            self.n += 1
+            return initial_state if initial_state is not None else torch.zeros(num_samples, 1, dtype=torch.double)
+    f = []
+    for ns, nc in ((4096 * 4097 + 1, 4097), (2 ** 24 + 1, 2 ** 12), (3 * 2 ** 23 + 1, 2 ** 13)):
+        want = -(-ns // nc)
+        for system in (False, True):
+            d = Draws()
+            c = Const()
+            res = System(c).statistics(d, ns, num_chains=nc)[c.name] if system else c.statistics(d, ns, num_chains=nc)
+            if res["num_samples"] < ns or res["num_samples"] != want * nc or d.n != want:
+                f.append("num_samples=%d num_chains=%d (%s): %d draws, %d samples reported; expected %d draws, %d samples >= requested"
+                         % (ns, nc, "System" if system else "alone", d.n, res["num_samples"], want, want * nc))
+    return f
+
+
 def native_check(seed=0, quick=True):
     from qucumber.observables import SigmaZ, SigmaX, NeighbourInteraction
     rng = np.random.default_rng(seed)
     torch.manual_seed(seed)
     fails = []
     n = 0
+    f = large_counts()
+    n += 1
+    if f:
+        fails.append(({"num_samples": "above 2**24 with a remainder"}, f[:2]))
     for kind in ("positive", "complex", "mixed"):
         st = C.make_state(kind, 3, 2, 2)
         C.randomize(st, rng, 0.6)
